@@ -502,6 +502,7 @@ fn case_of(sub: u64) -> (Vec<u8>, Vec<Blk>, Vec<Op>) {
 pub fn run(ctx: &mut Ctx) {
     if let Some(case) = ctx.replay_only.clone() {
         let sub: u64 = case.get(1).and_then(|s| s.parse().ok()).unwrap_or(0);
+        if super::c02_indexed::replay(ctx, &case) { return; }
         match case.first().map(|s| s.as_str()) {
             Some("ops") => {
                 let (file, layout, ops) = case_of(sub);
@@ -551,6 +552,7 @@ pub fn run(ctx: &mut Ctx) {
         indexed_reader(ctx, ctx.seed.wrapping_mul(79).wrapping_add(it));
         mt_reader(ctx, ctx.seed.wrapping_mul(83).wrapping_add(it));
     }
+    super::c02_indexed::run(ctx);
     ctx.sample(|| "c02 ops 35:6e6f6f646c6573,28:-,31:62677a66,28:- r3,t,s0/5,x4,b,c2,u8,r65536".into());
 }
 
